@@ -6,6 +6,7 @@ miss=0
 for d in seeded/*/; do
   id=$(basename "$d"); p=${id%-*}
   if [ $# -gt 0 ]; then case " $* " in *" $p "*) ;; *) continue;; esac; fi
+  if grep -q '"obsolete_since"' "/verif/seeded/$id/meta.json" 2>/dev/null; then echo "$id OBSOLETE (a later repair made the seeded change harmless; see meta.json)"; continue; fi
   src="/verif/seeded/$id"
   if [ -f "$src/patch.rebased.diff" ]; then
     mkdir -p "/var/tmp/rb-$id"; cp "$src/patch.rebased.diff" "/var/tmp/rb-$id/patch.diff"; src="/var/tmp/rb-$id"
